@@ -244,6 +244,7 @@ def gen_case(streams, tier):
             'pairs': {'mode': g.choice(['all', 'all', 'named'])},
             'call': g.choice(['single', 'bulk', 'bulk_dstnets']),
             'scheds': gen_scheds(streams, k),
+            'rewrite': g.choice([None, 'optimize', 'optimize', 'one_bit_selects', 'two_way_concat']),
             'sched': world.gen_sched(streams, with_iter=False, noise=False)}
 
 
@@ -1037,6 +1038,45 @@ def run(case, res):
             return c.violation
         finally:
             common.iter_seam.uninstall()
+    # ---- query, rewrite the block in place, query again: an analysis of a block describes the
+    # block as it is now, not as it was when somebody first asked
+    if case.get('rewrite'):
+        import pyrtl
+        blk = b.block
+        try:
+            with contextlib.redirect_stdout(io.StringIO()):
+                with pyrtl.set_working_block(blk, no_sanity_check=True):
+                    if case['rewrite'] == 'optimize':
+                        pyrtl.optimize(block=blk)
+                    elif case['rewrite'] == 'one_bit_selects':
+                        pyrtl.one_bit_selects(block=blk)
+                    else:
+                        pyrtl.two_way_concat(block=blk)
+        except (pyrtl.PyrtlError, pyrtl.PyrtlInternalError):
+            res.probes.hit('rewrite_refused')
+        else:
+            if blk is b.block:
+                res.faults.hit('rewritten_in_place:' + case['rewrite'])
+                g2 = Graph(blk)
+                try:
+                    v = check_fanout(b, g2, res, 'after_' + case['rewrite'])
+                    if v is not None:
+                        v.tags = list(v.tags) + ['history:query_rewrite_query']
+                        return v
+                    # (not with memories: the read-delay estimate counts MemBlock.readport_nets,
+                    # a list the passes do not maintain; what it should be after a rewrite is
+                    # not something the property defines)
+                    tv = None
+                    if not any(n.op == 'm' for n in g2.nets):
+                        tv, _rep = check_timing(dict(case, tables=['default']), b, g2, res,
+                                                'after_' + case['rewrite'])
+                    if tv is not None:
+                        tv.tags = list(tv.tags) + ['history:query_rewrite_query']
+                        return tv
+                except _Crash as c:
+                    return c.violation
+            else:
+                res.probes.hit('rewrite_made_a_new_block')
     res.sched = hashlib.sha1(repr([(s['hash_seed'], s.get('iter_policy'), s.get('iter_seed'))
                                    for s in case['scheds']]).encode()).hexdigest()[:12]
     res.nontrivial = True
